@@ -19,10 +19,12 @@ Ops2 == {"BinaryOp+", "BinaryOp/", "BinaryOp%", "BinaryOp<<", "BinaryOp>>", "Bin
 Operands == {"int", "int8", "uint", "float", "string", "bool", "slice", "array", "map", "chan", "ptr", "func", "struct", "iface", "named",
              "c0", "c1", "cneg", "cfloat", "cstring", "cbool", "crune", "nil", "c2p40", "c2p63", "c2p64", "c2p100", "chuge", "cbigshift", "type", "ref", "tuple2", "novalue",
              "cyc", "cycptr", "recslice"}   \* values whose types are recursive: A{*B}, B{*A} (embedding cycle through pointers), *A, type L []L
-Configs == {"default", "recorder", "noskip"}
+\* "src": every operand and operation carries a source node (as a compiler front end passes them) and no NodeInterpreter is
+\* configured: reporting an error then renders source text through the default interpreter
+Configs == {"default", "recorder", "noskip", "src"}
 Arity(op) == IF op \in Ops1 THEN 1 ELSE 2
 VARIABLE pt
-Init == pt \in ([op : Ops1, x : Operands, y : {"-"}, cfg : Configs] \cup [op : Ops2, x : Operands, y : Operands, cfg : {"default", "noskip"}])
+Init == pt \in ([op : Ops1, x : Operands, y : {"-"}, cfg : Configs] \cup [op : Ops2, x : Operands, y : Operands, cfg : {"default", "noskip", "src"}])
 Next == UNCHANGED pt
 \* the property at the level of the model: the outcome set does not depend on the point
 Outcomes(p) == {"ok", "reported"}
